@@ -68,7 +68,7 @@ func zzHasAlert(err error) bool {
 // continues WITHOUT SRTP only if the server configured no profile; every failure carries a fatal alert; the
 // client accepts the honest server's selection and ends up with the same profile.
 //
-//symgo:entry covers=negotiated,no_srtp,server_fails_no_common,server_fails_not_offered,client_agrees
+//symgo:entry covers=mki_selected,negotiated,no_srtp,server_fails_no_common,server_fails_not_offered,client_agrees
 func zzSRTPPick() {
 	n := zzsymParam("NPROF")
 	client := zzSymProfiles("client_profile", zzsymChoice("nclient", n+1))
@@ -98,6 +98,13 @@ func zzSRTPPick() {
 	zzsymAssert(zzProfileIn(client, decision.ProtectionProfile), "profile_from_client_list")
 	zzsymAssert(zzProfileIn(server, decision.ProtectionProfile), "profile_from_server_list")
 	zzsymCover("negotiated")
+	// the master key identifier (RFC 5764 4.1.3) is a negotiated parameter too: the server selects one only if it
+	// is the value the client offered AND the value the server itself is configured with
+	if len(decision.MasterKeyIdentifier) > 0 {
+		zzsymAssert(zzsymEqBytes(decision.MasterKeyIdentifier, clientMKI), "selected_mki_is_the_clients_offer")
+		zzsymAssert(zzsymEqBytes(decision.MasterKeyIdentifier, serverMKI), "selected_mki_is_configured_on_the_server")
+		zzsymCover("mki_selected")
+	}
 
 	// the server's answer as flight4Generate builds it (appendSRTPSelection)
 	answer := []extension.Value{&extension.SRTPSelection{
